@@ -98,6 +98,13 @@ CLAIMED.update({
    note="The sync-system-time variant needs the reference clock address that lives in the MainDevice that ran init, so there init runs with the generated frame size too (>= 64)."),
 })
 
+CLAIMED.update({
+ "C15": dict(engine="simnet", category="exploration", design_ref="§5 C15",
+   technique="property-based testing against a CoE server inside the simulated device (written from ETG.1000.6 5.6, no ethercrab code): generated objects, mailbox sizes, upload policies (expedited / normal / segmented with generated segment lengths, with and without data in the initiate response), error replies and stale mailbox content; oracle = the object dictionary and the server's request log",
+   text="sdo_read into u8/u16/i16/u32/u64/[u8;N]/String<N>/Vec<u8,N> returns exactly the object's bytes for every transfer type; objects larger than the destination give TooLong (normal / segmented); complete access sets the flag and returns the concatenated sub-indices; sdo_write delivers exactly one download with index, sub-index and the value's bytes; sdo_write_array / sdo_read_array traces; abort / emergency / reply for another index or sub-index map to the documented errors with the device's values; mailbox counters over all requests cycle 1..7.",
+   note="Expedited values read into a smaller type (prefix semantics) are generated but not judged. Download is expedited only (the API refuses more than 4 bytes)."),
+})
+
 NOT_YET = {}
 
 ALL = [f"C{i:02d}" for i in range(1,21)]
@@ -133,7 +140,7 @@ def main():
         {"name":"pdusim","path":"harness/vlib","serves_properties":[p for p in CLAIMED if CLAIMED[p]["engine"]=="pdusim"],"kind_free_text":"PDU-loop harness: real frame builder / TX / RX driven op by op under a virtual clock, reference frame encoder, slot snapshots through verif-hooks"},
         {"name":"sii","path":"harness/vlib/src/sii.rs","serves_properties":["C12","C13","C14"],"kind_free_text":"independent SII EEPROM encoder + in-memory EepromDataProvider (4/8 byte chunks, read budget), driven through the verif-hooks SiiQueries facade"},
         {"name":"wiregen","path":"harness/vlib/src/wiregen.rs","serves_properties":["C19"],"kind_free_text":"derive-program generator, Rust source emitter, request/response executor, bit-level reference packer"},
-        {"name":"simnet","path":"harness/vlib/src/simnet.rs","serves_properties":["C07","C08","C09","C10","C11"],"kind_free_text":"simulated EtherCAT segment: frame walk over ESC register/SII/SM/FMMU/AL/mailbox(CoE)/DC models, deterministic executor under the virtual clock, coherent device generator"},
+        {"name":"simnet","path":"harness/vlib/src/simnet.rs","serves_properties":["C07","C08","C09","C10","C11","C15"],"kind_free_text":"simulated EtherCAT segment: frame walk over ESC register/SII/SM/FMMU/AL/mailbox(CoE)/DC models, deterministic executor under the virtual clock, coherent device generator"},
         {"name":"a2","path":"harness/vlib/src/a2.rs","serves_properties":["C01","C02","C06"],"kind_free_text":"yield-level scheduler: parties as ucontext coroutines on one thread, baton handed over at every verif-hooks point, schedules generated (random/PCT) or enumerated (pre-emption bounded), ownership monitor"},
       ],
       "checks":checks,
